@@ -4,6 +4,7 @@ Theorems about `loadKeysWith`, the `for json_key in o:` loop of the generated lo
 -/
 import DW.Model.Load
 import DW.Model.LoadV1
+import DW.Model.Dump
 import DW.Lemmas.V1
 import DW.Lemmas.GenDumpSem
 
@@ -472,6 +473,155 @@ theorem C10_v1_raise_two_spellings_witness :
     (∀ kv ∈ doc, v1Unknown eff ci kv.1 = false) ∧
     v1ClassWith (fun _ v => pure v.toPy) eff ci (.dict doc) = .error (.unknownKeys ['K'] []) := by
   refine ⟨by decide, by rfl⟩
+
+/-! ### The write-back clause and the dump-side settings
+
+`to_dict` writes the items of the CatchAll mapping back at top level.  The unknown pairs are the document's data, not fields of the
+class: none of the settings that select or spell the class's own fields on a dump (Meta.skip_if, skip_defaults_if, skip_defaults,
+key_transform_with_dump, SkipIf on other fields, the `skip_defaults` argument) has a say about them.  Stated on the dump model
+(`dumpFields`, tied to the generated `cls_asdict` by the C10 / C11 / C03 correspondence streams). -/
+
+/-- the field loop handles the first field and then the rest: whatever the first field contributes is a prefix of the result -/
+theorem dumpFields_cons_tail (std : Std) (ts : Bool) (cfg : Option MetaCfg) (eff : MetaCfg) (args : DumpArgs) (ci : ClassInfo)
+    (n : S) (v : PyVal) (rest : List (S × PyVal)) (out : List (DVal × DVal))
+    (h : dumpFields std ts cfg eff args ci ((n, v) :: rest) = .ok out) :
+    ∃ here more, dumpFields std ts cfg eff args ci rest = .ok more ∧ out = here ++ more := by
+  cases v <;> rw [dumpFields] at h
+  all_goals first
+    | (intro _ _ hh; cases hh; done)
+    | (simp only [bind, Except.bind, pure, Except.pure] at h
+       repeat' split at h
+       all_goals first
+         | (simp at h; done)
+         | (simp only [Except.ok.injEq] at h; subst h; exact ⟨_, _, by assumption, rfl⟩))
+
+/-- the declaration the field loop uses for the attribute called `n` -/
+def fieldOf (ci : ClassInfo) (n : S) : FieldInfo := (ci.fields.find? (fun f => f.name == n)).getD { name := n }
+
+/-- "the catch-all mapping is written": the attribute is the CatchAll field, it is not named in `exclude`, and it does not equal its
+declared default (a CatchAll field without default is always written) -/
+def CatchAllWritten (eff : MetaCfg) (args : DumpArgs) (ci : ClassInfo) (n : S) (v : PyVal) : Prop :=
+  (fieldOf ci n).isCatchAll = true ∧ excluded args (fieldOf ci n) = false ∧
+  (∀ d, (fieldOf ci n).dflt = some d → pyEqDflt v d = false) ∧
+  -- … and the skip-defaults bookkeeping does not select it (a defaulted CatchAll field is tested like any defaulted field:
+  -- the recorded finding `catchall-mapping-judged-by-skip-defaults-if`, witness below)
+  (skipDefaultsOn eff args = true → defaultTest eff (fieldOf ci n) v = .ok false)
+
+/-- one step of the field loop at the CatchAll field: its items, then the remaining fields — no Meta setting and no `skip_defaults`
+argument is consulted -/
+theorem dumpFields_cons_catchall (std : Std) (ts : Bool) (cfg : Option MetaCfg) (eff : MetaCfg) (args : DumpArgs) (ci : ClassInfo)
+    (n : S) (k : MapKind) (kvs : List (PyVal × PyVal)) (rest : List (S × PyVal))
+    (hw : CatchAllWritten eff args ci n (.map k kvs)) :
+    dumpFields std ts cfg eff args ci ((n, .map k kvs) :: rest) = (do
+      let here ← dumpCatchAll std ts cfg kvs
+      let more ← dumpFields std ts cfg eff args ci rest
+      pure (here ++ more)) := by
+  obtain ⟨hca, hex, hnd, hsd⟩ := hw
+  unfold fieldOf at hca hex hnd hsd
+  rw [dumpFields]
+  simp only [hca, hex, if_true, Bool.false_eq_true, if_false]
+  by_cases hon : skipDefaultsOn eff args = true
+  · cases hd : ((List.find? (fun f => f.name == n) ci.fields).getD { name := n }).dflt with
+    | none => simp [hon, hsd hon, bind, Except.bind, pure, Except.pure]
+    | some d => simp [hon, hsd hon, hnd d hd, bind, Except.bind, pure, Except.pure]
+  · have hoff : skipDefaultsOn eff args = false := by simpa using hon
+    cases hd : ((List.find? (fun f => f.name == n) ci.fields).getD { name := n }).dflt with
+    | none => simp [hoff, bind, Except.bind, pure, Except.pure]
+    | some d => simp [hoff, hnd d hd, bind, Except.bind, pure, Except.pure]
+
+/-- C10, write-back clause on the dump model: for EVERY effective Meta `eff` (skip_if, skip_defaults_if, skip_defaults, dump key
+transform, ...), every `skip_defaults` argument and every other field of the class, a dump that succeeds contains every item of the
+mapping held by the CatchAll field (unless that field is excluded or equals its default).  `_partial`: the full statement
+("unless excluded or default" only) is false of the code and of the model for a defaulted CatchAll field whose mapping satisfies
+`Meta.skip_defaults_if` — `C10_writeback_lost_under_skip_defaults_if` below, recorded finding
+`catchall-mapping-judged-by-skip-defaults-if` — so the hypothesis `CatchAllWritten` also asks that the skip-defaults
+bookkeeping does not select the field. -/
+theorem C10_writeback_whatever_dump_settings_partial (std : Std) (ts : Bool) (cfg : Option MetaCfg) (eff : MetaCfg) (args : DumpArgs)
+    (ci : ClassInfo) (n : S) (k : MapKind) (kvs : List (PyVal × PyVal)) (hw : CatchAllWritten eff args ci n (.map k kvs)) :
+    ∀ (fields : List (S × PyVal)) (out : List (DVal × DVal)), (n, PyVal.map k kvs) ∈ fields →
+      dumpFields std ts cfg eff args ci fields = .ok out →
+      ∃ items, dumpCatchAll std ts cfg kvs = .ok items ∧ ∀ p ∈ items, p ∈ out := by
+  intro fields
+  induction fields with
+  | nil => intro out hm; cases hm
+  | cons fv rest ih =>
+    intro out hm h
+    obtain ⟨n', v'⟩ := fv
+    rcases List.mem_cons.mp hm with heq | hin
+    · cases heq
+      rw [dumpFields_cons_catchall std ts cfg eff args ci n k kvs rest hw] at h
+      simp only [bind, Except.bind, pure, Except.pure] at h
+      cases hc : dumpCatchAll std ts cfg kvs with
+      | error e => rw [hc] at h; simp at h
+      | ok items =>
+        rw [hc] at h
+        cases hr : dumpFields std ts cfg eff args ci rest with
+        | error e => rw [hr] at h; simp at h
+        | ok more =>
+          rw [hr] at h
+          simp only [Except.ok.injEq] at h
+          subst h
+          exact ⟨items, rfl, fun p hp => List.mem_append_left _ hp⟩
+    · obtain ⟨here, more, hrest, hout⟩ := dumpFields_cons_tail std ts cfg eff args ci n' v' rest out h
+      obtain ⟨items, hi, hsub⟩ := ih more hin hrest
+      exact ⟨items, hi, fun p hp => by rw [hout]; exact List.mem_append_right _ (hsub p hp)⟩
+
+/-- the key an item of the CatchAll mapping is written under: the key itself -/
+def itemKey : PyVal → DVal
+  | .str s => .str s
+  | .int i => .int i
+  | .bool b => .bool b
+  | .none => .null
+  | _ => .bad "key".toList
+
+/-- ... spelled as given, in the order of the mapping: no key transform touches them -/
+theorem C10_writeback_keys_as_given (std : Std) (ts : Bool) (cfg : Option MetaCfg) :
+    ∀ (kvs : List (PyVal × PyVal)) (items : List (DVal × DVal)), dumpCatchAll std ts cfg kvs = .ok items →
+      items.map (·.1) = kvs.map (fun kv => itemKey kv.1) := by
+  intro kvs
+  induction kvs with
+  | nil => intro items h; simp only [dumpCatchAll, pure, Except.pure, Except.ok.injEq] at h; subst h; rfl
+  | cons kv rest ih =>
+    intro items h
+    obtain ⟨k, v⟩ := kv
+    unfold dumpCatchAll at h
+    simp only [bind, Except.bind, pure, Except.pure] at h
+    cases hv : dumpV std ts cfg v with
+    | error e => rw [hv] at h; simp at h
+    | ok dv =>
+      rw [hv] at h
+      cases hr : dumpCatchAll std ts cfg rest with
+      | error e => rw [hr] at h; simp at h
+      | ok more =>
+        rw [hr] at h
+        simp only [Except.ok.injEq] at h
+        subst h
+        simp only [List.map_cons, ih more hr]
+        cases k <;> rfl
+
+/-- non-vacuity: a class whose Meta leaves out every falsy value (skip_if = IS_FALSY()) and has skip_defaults on still writes back
+both captured pairs, whose values are falsy, while its own field `x = 0` is left out -/
+example (std : Std) :
+    let ci : ClassInfo := { name := ['K'], fields := [{ name := ['x'] }, { name := ['r'], isCatchAll := true, dflt := some (.lit .none) }] }
+    let eff : MetaCfg := { skipIf := some ⟨.falsy, .none⟩, skipDefaults := some true }
+    let m : List (PyVal × PyVal) := [(.str ['n'], .int 0), (.str ['s'], .none)]
+    CatchAllWritten eff {} ci ['r'] (.map .dict m) ∧
+    dumpFields std false none eff {} ci [(['x'], .int 0), (['r'], .map .dict m)] = .ok [(.str ['n'], .int 0), (.str ['s'], .null)] := by
+  refine ⟨⟨by decide, by decide, ?_, ?_⟩, by rfl⟩
+  · intro d hd
+    cases hd
+    decide
+  · intro _; rfl
+
+/-- **the full write-back statement is false of the code** (and of the model, which follows it): with `skip_defaults_if = IS_TRUTHY()`
+a defaulted CatchAll field holding a non-empty mapping is skipped as a "default", so both captured pairs are lost — replayed on the
+implementation by `findings/catchall-mapping-judged-by-skip-defaults-if.py` -/
+theorem C10_writeback_lost_under_skip_defaults_if (std : Std) :
+    let ci : ClassInfo := { name := ['K'], fields := [{ name := ['x'] }, { name := ['r'], isCatchAll := true, dflt := some (.lit .none) }] }
+    let eff : MetaCfg := { skipDefaultsIf := some ⟨.truthy, .none⟩ }
+    let m : List (PyVal × PyVal) := [(.str ['n'], .int 0), (.str ['s'], .none)]
+    dumpFields std false none eff {} ci [(['x'], .int 5), (['r'], .map .dict m)] = .ok [(.str ['x'], .int 5)] := by
+  rfl
 
 /-! ### the write-back of captured pairs, at the level of the generated code -/
 
